@@ -8,11 +8,12 @@
      t1_tile_decode_roundtrip, t1_tile_decode_zero_block                    (PipeProofsBlock)
      T2ProofsPackets4.packets_deliver_fields with G1..G4 discharged,
        PipeGatherOnce.gather_once                                           (PipeProofsT2)
+     T2ProofsPackets5.packets_encode_total (EncodePackets returns no error)   (PipeProofsT2)
    Remaining hypotheses (named below): hyp_coeff_fit (the one arithmetic side condition; proved
-   from the DWT growth lemma when 2*levels + precision <= 24) and hyp_t2_encodes (EncodePackets
-   returns no error and no code-block contribution exceeds 65535 bytes). *)
+   from the DWT growth lemma when 2*levels + precision <= 24) and hyp_block_sizes (no code-block
+   compresses to more than 65535 bytes). *)
 From V Require Import Common.Base J2KGeo.GeoModel J2KGeo.GeoProofsBands J2KGeo.GeoProofsBlocks
-  DWT.DwtModel DWT.DwtProofs2D DWT.DwtGrowth T2.T2Header T2.T2Packets T2.T2ProofsPackets2
+  DWT.DwtModel DWT.DwtProofs2D DWT.DwtGrowth DWT.DwtGrowth2 T2.T2Header T2.T2Packets T2.T2ProofsPackets2
   Pipe.PipeModel Pipe.PipeProofsFront Pipe.PipeProofsLists Pipe.PipeProofsStore Pipe.PipeProofsGeo
   Pipe.PipeProofsDecGeo Pipe.PipeProofsBlock Pipe.PipeCellRel Pipe.PipeProofsEnc Pipe.PipeProofsCells
   Pipe.PipeProofsT2.
@@ -83,6 +84,22 @@ Proof.
   change (2 ^ 24) with 16777216 in Hpow. change (2 ^ 25) with 33554432. lia.
 Qed.
 
+(* ... and DwtGrowth2.fwd53_ml_bound_sharp (231 * A + 227 for up to 6 levels) for every tuple in scope *)
+Lemma coeff_fit_sharp : forall planes, planes_ok p (2 ^ pp_prec p) planes -> coeff_fit (map (pipe_fdwt p) planes).
+Proof.
+  intros planes [_ Hall] d Hd v Hv. apply in_map_iff in Hd as [pl [<- Hpl]].
+  rewrite Forall_forall in Hall. destruct (Hall pl Hpl) as [Hl Hb].
+  destruct Hsc as (_ & _ & _ & HP & HL & _). fold L in HL.
+  assert (Hpow : 1 <= 2 ^ pp_prec p <= 2 ^ 16) by (split; [pose proof (Z.pow_pos_nonneg 2 (pp_prec p) ltac:(lia) ltac:(lia)); lia | apply Z.pow_le_mono_r; lia]).
+  change (2 ^ 16) with 65536 in Hpow.
+  assert (Hbnd : bnd (231 * 2 ^ pp_prec p + 227) (pipe_fdwt p pl)).
+  { unfold pipe_fdwt. fold L. destruct (L =? 0).
+    - eapply Forall_impl; [|exact Hb]. intros a Ha. cbv beta in Ha. lia.
+    - apply fwd53_ml_bound_sharp; [lia | lia | exact Hb|]. fold w h in Hl. apply plane_len_nat. exact Hl. }
+  unfold bnd in Hbnd. rewrite Forall_forall in Hbnd. specialize (Hbnd v Hv).
+  change (2 ^ 25) with 33554432. lia.
+Qed.
+
 (* ---------- the decoder's grid is the encoder's block list ---------- *)
 
 Lemma dec_cells_blocks : forall d, dec_cells_res p = map (fun rc => (fst rc, cell_of_block (snd rc))) (enc_blocks p d).
@@ -141,35 +158,40 @@ Qed.
 Definition hyp_coeff_fit (pix : list Z) : Prop :=
   forall coeffs, pipe_coeffs p pix = Ok coeffs -> coeff_fit coeffs.
 
-(* (H2) about t1.Encoder.Encode output sizes and PacketEncoder.EncodePackets
-   (encodePacketHeaderWithTagTreeMulti): the packet encoder returns no error, and no code-block
-   contributes more than 65535 bytes (PacketDecoder.decodePacket clamps longer contributions) *)
-Definition hyp_t2_encodes (pix : list Z) : Prop :=
-  forall coeffs cells, pipe_coeffs p pix = Ok coeffs -> pipe_cells p coeffs = Ok cells ->
-    (forall d, In d coeffs -> forall r cb, In (r, cb) (enc_blocks p d) -> zlen (eb_data (eblk p r cb)) <= 65535) /\
-    exists eps cells', enc_packets (pp_order p) 1 (L + 1) nc (pipe_pgeom p) cells = Ok (eps, cells') /\ small_packets eps.
+(* (H2) about t1.Encoder.Encode as called by Encoder.encodeCodeBlock: no code-block's compressed
+   data exceeds 65535 bytes (PacketDecoder.decodePacket clamps longer contributions, and the
+   Lblock code of the model is proved for lengths < 2^25).  An MQ-coder output bound for a block
+   of <= 4096 samples and <= 25 bit-planes is not available. *)
+Definition hyp_block_sizes (pix : list Z) : Prop :=
+  forall coeffs, pipe_coeffs p pix = Ok coeffs ->
+  forall d, In d coeffs -> forall r cb, In (r, cb) (enc_blocks p d) ->
+  forall b, enc_code_block p r cb (cb_cbx cb) (cb_cby cb) = Ok b -> zlen (eb_data b) <= 65535.
 
 (* ---------- the theorem ---------- *)
 
 Theorem pipe_roundtrip_section : forall samples, samples_ok p samples ->
   let pix := pack_image p samples in
-  hyp_coeff_fit pix -> hyp_t2_encodes pix ->
+  hyp_block_sizes pix ->
   exists tile, pipe_encode_tile p pix = Ok tile /\ pipe_decode_tile p tile = Ok pix.
 Proof.
-  intros samples Hsm pix Hfit Ht2.
-  destruct (front_ok p samples Hsc Hsm) as [planes [Efront [[Hnp Hpl] Eback]]]. fold pix in Efront, Eback.
+  intros samples Hsm pix Hbs.
+  destruct (front_ok p samples Hsc Hsm) as [planes [Efront [Hplok Eback]]]. fold pix in Efront, Eback.
+  pose proof Hplok as [Hnp Hpl].
   set (coeffs := map (pipe_fdwt p) planes).
   assert (Ecoeffs : pipe_coeffs p pix = Ok coeffs) by (unfold pipe_coeffs; rewrite Efront; reflexivity).
-  pose proof (Hfit coeffs Ecoeffs) as Hcf.
+  pose proof (coeff_fit_sharp planes Hplok) as Hcf. fold coeffs in Hcf.
   assert (Hnc : length coeffs = Z.to_nat nc) by (unfold coeffs; rewrite map_length; exact Hnp).
   assert (Hlen : forall d, In d coeffs -> zlen d = w * h).
   { intros d Hd. unfold coeffs in Hd. apply in_map_iff in Hd as [pl [<- Hin]]. apply fdwt_length.
     rewrite Forall_forall in Hpl. apply (Hpl pl Hin). }
   destruct (pipe_cells_spec p Hsc coeffs Hnc Hlen Hcf) as [cells [Ecells _]].
-  destruct (Ht2 coeffs cells Ecoeffs Ecells) as [Hsmall [eps [cells' [Eenc Hsp]]]].
+  assert (Hsmall : forall d, In d coeffs -> forall r cb, In (r, cb) (enc_blocks p d) -> zlen (eb_data (eblk p r cb)) <= 65535).
+  { intros d Hd r cb Hin. apply (Hbs coeffs Ecoeffs d Hd r cb Hin). apply (eblk_spec p Hsc d (Hlen d Hd) (Hcf d Hd) r cb Hin). }
+  assert (Hord0 : 0 <= pp_order p <= 4) by (destruct Hsc as (_ & _ & _ & _ & _ & _ & _ & _ & H); exact H).
+  destruct (t2_encodes p Hsc coeffs Hnc Hlen Hcf Hsmall cells Ecells Hord0) as [eps [cells' [Eenc Hsp]]].
   exists (packets_bytes eps). split.
   - unfold pipe_encode_tile. rewrite Ecoeffs. cbn [obind]. rewrite Ecells. cbn [obind].
-    unfold pipe_tile_bytes. fold L nc. rewrite Eenc. reflexivity.
+    unfold pipe_tile_bytes. rewrite Eenc. reflexivity.
   - destruct Hsc as (_ & _ & Hncr & _ & _ & _ & _ & _ & Hord).
     destruct (t2_delivers p Hsc coeffs Hnc Hlen Hcf Hsmall cells Ecells eps cells' Hord Eenc Hsp) as [dps [Edec Hdel]].
     unfold pipe_decode_tile, pipe_dec_planes. rewrite Edec. cbn [obind].
@@ -217,37 +239,25 @@ Definition pipe_roundtrip_statement : Prop :=
     exists tile, pipe_encode_tile p (pack_image p samples) = Ok tile /\
                  pipe_decode_tile p tile = Ok (pack_image p samples).
 
-(* Proved: the statement under the two named hypotheses.
+(* Proved: the statement under ONE named hypothesis, hyp_block_sizes.  The arithmetic side
+   condition (every wavelet coefficient inside (-2^25, 2^25), so that `<<= 6` stays in int32 and
+   T1 sees at most 25 magnitude planes) is a theorem for the whole scope: coeff_fit_sharp, from
+   DwtGrowth2.fwd53_ml_bound_sharp (231 * 2^16 + 227 < 2^24).
    Missing for the full statement:
-   - hyp_coeff_fit for 2*levels + precision > 24: needs a sharper growth bound of the multilevel
-     5/3 transform than DwtGrowth.fwd53_ml_bound (4^levels), e.g. the BIBO gain of the cascaded
-     analysis filters (< 2^4 for any level count would do for precision 16 with RCT);
-   - hyp_t2_encodes: totality of the packet-header encoder model (tag-tree encode, numpasses
-     code for 3n-2 <= 73 passes, Lblock) on the cells built here, and an upper bound of 65535
-     bytes on the MQ coder's output for a block of <= 4096 samples and <= 25 bit-planes. *)
+   - hyp_block_sizes: an upper bound of 65535 bytes on the MQ coder's output for a block of
+     <= 4096 samples and <= 25 bit-planes (73 coding passes). *)
 Theorem pipe_roundtrip_partial : forall p, pp_scope p -> forall samples, samples_ok p samples ->
   let pix := pack_image p samples in
-  hyp_coeff_fit p pix -> hyp_t2_encodes p pix ->
+  hyp_block_sizes p pix ->
   exists tile, pipe_encode_tile p pix = Ok tile /\ pipe_decode_tile p tile = Ok pix.
 Proof. exact pipe_roundtrip_section. Qed.
 
-(* the arithmetic side condition is a theorem for 2*levels + precision <= 24 (all images up to
-   12 bits with any level count; 16 bits up to 4 levels) *)
-Lemma hyp_coeff_fit_growth : forall p samples, pp_scope p -> samples_ok p samples ->
-  2 * pp_levels p + pp_prec p <= 24 -> hyp_coeff_fit p (pack_image p samples).
+(* the arithmetic side condition as a statement about the model *)
+Lemma hyp_coeff_fit_holds : forall p samples, pp_scope p -> samples_ok p samples ->
+  hyp_coeff_fit p (pack_image p samples).
 Proof.
-  intros p samples Hsc Hsm Hs coeffs Ec.
+  intros p samples Hsc Hsm coeffs Ec.
   destruct (front_ok p samples Hsc Hsm) as [planes [Efront [Hok _]]].
   unfold pipe_coeffs in Ec. rewrite Efront in Ec. cbn [obind] in Ec. injection Ec as <-.
-  apply (coeff_fit_growth p Hsc planes Hok Hs).
-Qed.
-
-Theorem pipe_roundtrip_partial_growth : forall p, pp_scope p -> forall samples, samples_ok p samples ->
-  2 * pp_levels p + pp_prec p <= 24 ->
-  let pix := pack_image p samples in
-  hyp_t2_encodes p pix ->
-  exists tile, pipe_encode_tile p pix = Ok tile /\ pipe_decode_tile p tile = Ok pix.
-Proof.
-  intros p Hsc samples Hsm Hs pix Ht2. apply (pipe_roundtrip_section p Hsc samples Hsm); [|exact Ht2].
-  apply hyp_coeff_fit_growth; assumption.
+  apply (coeff_fit_sharp p Hsc planes Hok).
 Qed.
